@@ -229,11 +229,72 @@ def case_two_pairings(p):
     return out
 
 
-CASES = {"e2e": case_e2e, "two_pairings": case_two_pairings, "ble_resume_refused": case_ble_resume_refused}
+def case_coap_resession(p):
+    """CoAP: a session is established, lost (the accessory restarted and answers 4.04; or the application asks for a reconnect), and pair-verify
+    runs again on the SAME pairing / connection objects.  After it both ends agree on all THREE keys of the NEW session: requests work, an event
+    under the new event key is delivered, and an event sealed under the event key of the session that is gone is not."""
+    from vt.env.coaprig import CoapRig
+
+    out = []
+    det = {"how": p["how"], "sessions": p.get("sessions", 2)}
+    rig = CoapRig(seed=p.get("seed", 0))
+    try:
+        rig.run(rig.pairing.list_accessories_and_characteristics(), horizon=60)
+        notes = []
+        rig.pairing.dispatcher_connect(lambda ev: notes.append(dict(ev)))
+        olds = []
+        for n in range(1, p.get("sessions", 2)):
+            if rig.acc.session is None:
+                return [("e2e:coap:honest-session-not-established", det)]
+            if p.get("event_in_old_session", True):
+                rig.deliver_event([(10, bytes([n, 0, 0, 0]))])
+            olds.append(dict(rig.acc.session))
+            if p["how"] == "accessory-restart":
+                rig.acc.session = None  # every further request is answered 4.04
+            elif p["how"] == "reconnect-soon":
+                rig.run(rig.pairing.connection.reconnect_soon()) if hasattr(rig.pairing.connection, "reconnect_soon") else None
+                rig.acc.session = None
+            for _ in range(3):
+                try:
+                    r = rig.run(rig.pairing.get_characteristics([(1, 10)]))
+                    break
+                except Exception:  # noqa: BLE001
+                    r = None
+            if r != {(1, 10): {"value": 50}} or rig.acc.session is None:
+                return [("e2e:coap:no-new-session-after-the-old-one-was-lost", dict(det, nth=n, got=repr(r)[:80]))]
+        del notes[:]
+        code = rig.deliver_event([(10, b"\x63\x00\x00\x00")])
+        if str(code) != "2.03 Valid" or notes != [{(1, 10): {"value": 0x63}}]:
+            out.append(("e2e:coap:event-under-the-new-sessions-event-key-not-accepted", dict(det, code=str(code), notes=repr(notes)[:120])))
+        del notes[:]
+        cur = rig.acc.session
+        for k, old in enumerate(olds):
+            for ctr in sorted({0, old["ev_ctr"], max(old["ev_ctr"] - 1, 0), cur["ev_ctr"]}):
+                rig.acc.session = dict(old, ev_ctr=ctr)
+                try:
+                    rig.deliver_event([(10, b"\x77\x00\x00\x00")])
+                except Exception:  # noqa: BLE001
+                    pass
+                finally:
+                    rig.acc.session = cur
+                if notes:
+                    out.append(("e2e:coap:event-under-the-event-key-of-a-lost-session-accepted", dict(det, old_session=k, counter=ctr, notes=repr(notes)[:120])))
+                    del notes[:]
+        r = rig.run(rig.pairing.get_characteristics([(1, 10)]))
+        if rig.acc.errors or r != {(1, 10): {"value": 50}}:
+            out.append(("e2e:coap:session-keys-do-not-interoperate", dict(det, errors=rig.acc.errors[:2], after="events of a lost session were shown")))
+    finally:
+        rig.close()
+    return out
+
+
+CASES = {"e2e": case_e2e, "two_pairings": case_two_pairings, "ble_resume_refused": case_ble_resume_refused, "coap_resession": case_coap_resession}
 
 
 def plan():
     return [("e2e", [{"rec": 0, "eph": 0, "style": tr, "transport": tr, "fault": f}]) for tr in ("ip", "coap", "ble") for f in FAULTS] + \
         [("e2e", [{"rec": 0, "eph": 0, "style": "ip", "transport": "ip", "fault": f}]) for f in IP_ONLY_FAULTS] + \
+        [("coap_resession", [{"rec": 0, "eph": 0, "style": "coap", "transport": "coap", "fault": f"resession:{h_}:{n}:{e_}", "how": h_, "sessions": n, "event_in_old_session": e_}])
+         for h_ in ("accessory-restart", "reconnect-soon") for n in (2, 3) for e_ in (True, False)] + \
         [("two_pairings", [{"rec": 0, "eph": 0, "style": "ble", "transport": "ble", "fault": "two-pairings"}])] + \
         [("ble_resume_refused", [{"rec": 0, "eph": 0, "style": "ble", "transport": "ble", "fault": "resume-refused:" + h_, "how": h_}]) for h_ in ("error", "wrong-tag", "m4-refused")]
